@@ -307,7 +307,8 @@ def run_replacements(text: str, repl=RUN_REPLACEMENTS):
 def hostile_texts():
     """Texts independent of any pattern: empty, NUL-containing, very long digit runs, lone signs, non-ASCII digits."""
     return ("", "\0", "\0\0", "0\0", "\x000", " ", "-", "+", "--", "+-", "9" * 40, "-" + "9" * 40, "٣", "²",
-            "١٢:٣٠", "1e5", "0x10", "١٢", "Z", "z", "T", "‏", "\U0001d7d8", "a" * 300)
+            "١٢:٣٠", "1e5", "0x10", "١٢", "Z", "z", "T", "‏", "\U0001d7d8", "a" * 300,
+            "{", "}", "{0}", "{}", "{0", "}{", "{x}", "{0!r}", "{:>5}", "%", "%s", "%(a)s", "%%", "\\", "\\n", "$1", "\\1")
 
 
 # --- ill-formed composites (C08): embedded pattern + an individual field of the same kind, repeated fields ---------
@@ -346,3 +347,30 @@ def illformed_composites(kind: str):
     if kind == "duration":
         for a, b in (("H", "h"), ("hh", "H"), ("M", "m"), ("mm", "MM"), ("S", "s"), ("ss", "S"), ("D", "H"), ("H", "M"), ("S", "D"), ("M", "S")):
             yield "%s'~'%s" % (a, b), "repeated-field"
+
+
+# --- literals made of format-string metacharacters (C08) ----------------------------------------------------------
+
+# pattern-text spellings of literals consisting of characters that str.format / % formatting / regex substitution treat
+# specially: quoted, backslash-escaped, and bare where the pattern language allows a bare non-letter literal
+META_LITERALS = ("'{'", "'}'", "'{0}'", "'{}'", "'{x}'", "'%s'", "'%'", "'%(a)s'", "\\{", "\\}", "\\%", "\\\\", "{", "}", "{0}", "{}", "'$1'",
+                 '"{"', '"}"')
+
+
+def metachar_patterns(kind: str, per_pattern: int = 3):
+    """Well-formed patterns whose literals are format-string metacharacters.  Every FIXED shape wrapped in every
+    literal (literal + pattern + literal), and every two-field quoted-delimiter pattern with its '~' replaced by
+    `per_pattern` of the literals (round robin over the pattern index, so all literals occur with all field pairs of
+    some width).  Yields Pat with delim = 'meta'."""
+    for text, names in FIXED[kind]:
+        fp = next(p for p in fixed_patterns(kind) if p.text == text)
+        for lit in META_LITERALS:
+            yield Pat(kind, lit + text + lit, fp.fields, "meta")
+    idx = 0
+    for p in custom_patterns(kind, 2, 2, 99):
+        if p.delim != "q":
+            continue
+        for j in range(per_pattern):
+            lit = META_LITERALS[(idx * per_pattern + j) % len(META_LITERALS)]
+            yield Pat(kind, p.text.replace("'~'", lit), p.fields, "meta")
+        idx += 1
